@@ -139,3 +139,94 @@ def corpus(ctx, pool):
                             tid += 1
     outs = pool.map(run_case, jobs, chunksize=4)
     return outs
+
+
+# ---------------------------------------------------------------------------------------------
+def replay_expect(args):
+    """one PtyRead schedule (peer actions placed before the k-th reader system call) under expect():
+    expect_exact([never-matching, EOF, TIMEOUT]) for every CallStart of the schedule, then one more call"""
+    workdir, schedule, use_poll = args
+    w = None
+    out = {'calls': [], 'error': None}
+    try:
+        w = PtyWorld(workdir, use_poll=use_poll)
+        w.schedule = [tuple(x) for x in schedule]
+        child = w.child
+        ncalls = 0
+        while True:
+            w.skip_to_call()
+            if w.pos >= len(w.schedule):
+                break
+            size, tmo = w.schedule[w.pos][1]
+            w.pos += 1
+            child.maxread = size
+            w.active = True
+            rec = {'tmo': tmo, 'written_before': w.written.decode('latin-1')}
+            try:
+                i = child.expect_exact([b'\xff\xfe', pexpect.EOF, pexpect.TIMEOUT], timeout=float(tmo))
+                rec['kind'] = ('match', 'EOF', 'TIMEOUT')[i]
+            except WouldBlock:
+                rec['kind'] = 'BLOCK'
+            except Exception as e:
+                rec['kind'] = 'ERR:' + type(e).__name__
+            finally:
+                w.active = False
+            rec['before'] = (child.before or b'').decode('latin-1')
+            rec['written_at_return'] = w.written.decode('latin-1')
+            rec['peer_open'] = w.peer_open
+            out['calls'].append(rec)
+            if rec['kind'] in ('BLOCK',) or rec['kind'].startswith('ERR'):
+                break
+        out['written'] = w.written.decode('latin-1')
+    except Exception:
+        out['error'] = traceback.format_exc()
+    finally:
+        if w is not None:
+            try:
+                w.close()
+            except Exception:
+                pass
+    return out
+
+
+def interleaved(ctx, pool):
+    from . import transport as TR
+    T = TR.TRANSPORTS['pty']
+    consts = T['consts'](True)
+    res, g = TR.model_graph(ctx, T['module'], 'pty_c04.cfg', consts, T['invs'], 'pty_c04')
+    reader = set().union(*T['kinds'].values())
+    scheds, nstates, npaths = TR.schedules_from_graph(g, 3, reader, T['inter'])
+    rng = random.Random(ctx.seed * 7 + 1)
+    cap = 1500 if ctx.quick() else 20000
+    if len(scheds) > cap:
+        scheds = rng.sample(scheds, cap)
+    jobs = [(ctx.work, s_, bool(k % 2)) for k, (root, s_) in enumerate(scheds)]
+    outs = pool.map(replay_expect, jobs, chunksize=8)
+    for job, out in zip(jobs, outs):
+        if out['error']:
+            from .. import tlc
+            raise tlc.TLCError('expect-level replay crashed: %s\n%s' % (job[1], out['error']))
+        consumed = ''
+        seen_eof = False
+        for i, c in enumerate(out['calls']):
+            case = {'transport': 'pty', 'schedule': job[1], 'use_poll': job[2], 'level': 'expect'}
+            if c['kind'] == 'EOF':
+                total = consumed + c['before']
+                if seen_eof and c['before']:
+                    ctx.fail('C04:output-delivered-after-eof-was-reported', case, detail={'calls': out['calls']}, signature={'transport': 'pty'})
+                elif not seen_eof and (total != c['written_at_return'] or c['peer_open']):
+                    ctx.fail('C04:eof-reported-but-before-does-not-hold-all-output', case,
+                             detail={'calls': out['calls'], 'written': out.get('written')}, signature={'transport': 'pty'})
+                consumed = total
+                seen_eof = True
+            elif c['kind'] == 'TIMEOUT':
+                if seen_eof:
+                    ctx.fail('C04:timeout-after-eof-instead-of-eof-again', case, detail={'calls': out['calls']}, signature={'transport': 'pty'})
+                if not c['written_before'].startswith(consumed + c['before'][:0]) :
+                    pass
+                # before is all pending text: everything written before the call started must be in it
+                if len(consumed + c['before']) < len(c['written_before']):
+                    ctx.fail('C04:timeout-before-does-not-hold-all-pending-text', case, detail={'calls': out['calls']}, signature={'transport': 'pty'})
+            elif c['kind'].startswith('ERR'):
+                ctx.fail('C04:other-exception-instead-of-eof-or-timeout', case, detail={'calls': out['calls']}, signature={'transport': 'pty'})
+    return len(jobs)
